@@ -351,7 +351,7 @@ func coldFixtures(fixSeed uint64) (string, error) {
 	if _, err := os.Stat(path); err == nil {
 		return path, nil
 	}
-	out, err := exec.Command(os.Getenv("CONSIM_BIN_PLAIN"), "fixgen", strconv.FormatUint(fixSeed, 10), path).CombinedOutput()
+	out, err := exec.Command(os.Getenv("CONSIM_BIN_PLAIN"), "fixgen", strconv.FormatUint(fixSeed, 10), path, os.Getenv("CONSIM_SITES")).CombinedOutput()
 	if err != nil {
 		return "", fmt.Errorf("fixgen: %v: %s", err, out)
 	}
